@@ -5,7 +5,7 @@ is handed to the wrapped call, ...), not assumed by name.
 """
 import ast
 
-from ..core import AnalysisError, u, walk_local, enclosing_stmt
+from ..core import AnalysisError, u, walk_local, enclosing_stmt, ancestors
 from ..lib import std_facts, calls_of_node, stored_names, in_subtree, def_of, names_of_text
 
 FACTORY = 'config._make_gin_wrapper'
@@ -80,6 +80,17 @@ class WrapperModel:
     self.req_pos_names = self._collector(self.A, indexes=False) or flow.get('RP-names') or self._from_pairs(1)
     self.req_pos_idx = self._collector(self.A, indexes=True) or flow.get('RP-idx') or self._from_pairs(0)
     self.req_kw = self._collector(self.K, indexes=False) or flow.get('RK-names')
+    if self.req_pos_names is None and self.req_pos_idx is None and self.req_pos_pairs is None:
+      # the wrapper does look for the marker among the positionals, but keeps what it finds in a form that is not read here
+      # (a name -> index mapping, a bit mask, ...): undecided rather than "not handled"
+      marks = [c for c in walk_local(f.node) if isinstance(c, ast.Compare) and len(c.ops) == 1 and isinstance(c.ops[0], (ast.Is, ast.IsNot))
+               and u(c.comparators[0]) == REQ]
+      in_pos = [c for c in marks if any(isinstance(a, (ast.comprehension, ast.For)) and self.A in {x.id for x in ast.walk(a.iter) if isinstance(x, ast.Name)}
+                                        and not (isinstance(a.iter, ast.Subscript) and isinstance(a.iter.slice, ast.Slice) and a.iter.slice.upper is None)
+                                        for a in list(ancestors(c)) + [g_ for p_ in ancestors(c) if isinstance(p_, (ast.ListComp, ast.GeneratorExp, ast.DictComp, ast.SetComp)) for g_ in p_.generators])]
+      if in_pos:
+        raise AnalysisError('gin_wrapper records the REQUIRED positionals in a form the wrapper model cannot read (line %d: `%s`)'
+                            % (in_pos[0].lineno, u(enclosing_stmt(in_pos[0]))[:120]))
     self.pop_loops = self._pop_loops()
 
   # -------------------------------------------------------------------------
